@@ -175,6 +175,12 @@ func runC02(c c02Case, rec *stat.Rec) *stat.Failure {
 		return stat.Failf("C02/reader-error/"+errClass(res.Err)+"/"+tag, "%s; delivery %+v; reader %+v: %d bytes in, frame of %d bytes: read error after %d bytes: %v", c.Opts, c.Del, c.R, len(data), len(z), len(res.Out), res.Err)
 	}
 	if !bytes.Equal(res.Out, data) {
+		if c.Opts.Legacy && c.Del.nFlush() == 0 {
+			// the same ambiguity without any Flush: a full block whose compressed size happens to equal the bytes decoded so far
+			if k, cum := legacyTrailerAmbiguity(z); k > 0 && len(res.Out) == cum && bytes.Equal(res.Out, data[:cum]) {
+				return stat.Failf("C02/legacy/full-block-size-word-equals-running-total", "%s; delivery %+v: block %d of the emitted legacy frame has size word %d == bytes decoded so far; the Reader takes it for the kernel-style size trailer and ends the stream after %d of %d bytes", c.Opts, c.Del, k, cum, cum, len(data))
+			}
+		}
 		if c.Opts.Legacy && c.Del.nFlush() > 0 {
 			if k, cum := legacyTrailerAmbiguity(z); k > 0 && len(res.Out) == cum && bytes.Equal(res.Out, data[:cum]) {
 				return stat.Failf("C02/legacy+flush/short-block-size-word-equals-running-total", "%s; delivery %+v: block %d of the emitted legacy frame has size word %d == bytes decoded so far; the Reader takes it for the kernel-style size trailer and ends the stream after %d of %d bytes", c.Opts, c.Del, k, cum, cum, len(data))
@@ -335,10 +341,46 @@ func TestC02Pinned(t *testing.T) {
 	// every run meets it (and prints its KNOWN-FINDING line) whatever the random part draws
 	pinned(t, "C02", "C02/roundtrip", c02Case{Opts: wopts{BS: 4, Conc: 1, Legacy: true}, Data: gen.Data{Segs: []gen.Seg{{K: "raw", N: 5, Raw: []byte("abcde")}}},
 		Del: delivery{Mode: "write", Chunks: []int{3}, Flush: []bool{true}}, R: rcfg{Conc: 1, Sizes: []int{4096}}}, runC02)
+	// ... and the witness of its variant without Flush: 16 MiB, the second 8 MiB block tuned (k trailing zero bytes) so that it
+	// compresses to exactly 8 MiB = the number of bytes decoded before it
+	if k := tuneLegacyBlockTo8MiB(); k >= 0 {
+		pinned(t, "C02", "C02/roundtrip", c02Case{Opts: wopts{BS: 4, Conc: 1, Legacy: true}, Data: gen.Data{Segs: []gen.Seg{{K: "count", N: 8 << 20, S: 3}, {K: "rand", N: 8<<20 - k, S: 42}, {K: "run", N: k, P: 0}}},
+			Del: delivery{Mode: "readfrom"}, R: rcfg{Conc: 1, Sizes: []int{1 << 20}}}, runC02)
+	}
 	// 4 MiB blocks
 	c := c02Case{Opts: wopts{BS: 7, ContentSum: true, Conc: 2}, Data: gen.Data{Segs: []gen.Seg{{K: "text", N: 4<<20 + 1, S: 5, P: 4}}},
 		Del: delivery{Mode: "write", Chunks: []int{4 << 20}, Flush: []bool{false}}, R: rcfg{Conc: 2, WriteTo: true}}
 	pinned(t, "C02", "C02/roundtrip", c, runC02)
+}
+
+// tuneLegacyBlockTo8MiB finds k such that 8 MiB - k random bytes (seed 42) followed by k zero bytes compress, as one legacy
+// block, to exactly 8 MiB; -1 if there is no such k near the crossing point.
+func tuneLegacyBlockTo8MiB() int {
+	const B = 8 << 20
+	csize := func(k int) int {
+		blk := gen.Data{Segs: []gen.Seg{{K: "rand", N: B - k, S: 42}, {K: "run", N: k, P: 0}}}.Build()
+		var sink inst.Sink
+		w := lz4.NewWriter(&sink)
+		_ = w.Apply(lz4.LegacyOption(true))
+		_, _ = w.Write(blk)
+		_ = w.Close()
+		return len(sink.Buf) - 8
+	}
+	lo, hi := 0, 200000
+	for lo < hi {
+		m := (lo + hi) / 2
+		if csize(m) > B {
+			lo = m + 1
+		} else {
+			hi = m
+		}
+	}
+	for k := lo - 300; k < lo+300; k++ {
+		if k >= 0 && csize(k) == B {
+			return k
+		}
+	}
+	return -1
 }
 
 func TestC02(t *testing.T) {
